@@ -212,3 +212,29 @@ fn largest_cluster(mut points: Vec<SpacePoint>, max_distance: Length) -> Vec<Spa
         .max_by_key(|c| c.len())
         .unwrap_or_default()
 }
+
+
+// Verification hooks (read-only wrappers; compiled only with `--cfg alpha_g_verif`).
+#[cfg(alpha_g_verif)]
+pub fn verif_get_bins(point: SpacePoint, rho_bins: u32, theta_bins: u32) -> Vec<(u32, u32)> {
+    HoughSpaceAccumulator {
+        rho_bins,
+        theta_bins,
+        accumulator: IndexMap::new(),
+    }
+    .get_bins(point)
+}
+#[cfg(alpha_g_verif)]
+pub fn verif_largest_cluster(points: Vec<SpacePoint>, max_distance: Length) -> Vec<SpacePoint> {
+    largest_cluster(points, max_distance)
+}
+#[cfg(alpha_g_verif)]
+pub fn verif_cluster_spacepoints(
+    sp: Vec<SpacePoint>,
+    min_num_points_per_cluster: usize,
+    rho_bins: u32,
+    theta_bins: u32,
+    max_distance: Length,
+) -> ClusteringResult {
+    cluster_spacepoints(sp, min_num_points_per_cluster, rho_bins, theta_bins, max_distance)
+}
